@@ -1640,19 +1640,25 @@ func (r *Raft) takeSnapshot() {
 	// No operation is applied in the meantime.
 	r.fsmBusy = true
 	r.mu.Unlock()
-	if err := r.fsm.Snapshot(snapshot); err != nil {
-		r.logger.Fatalf("failed to take snapshot of state machine: error = %v", err)
-	}
-	if err := snapshot.Close(); err != nil {
-		r.logger.Fatalf("failed to close snapshot file: error = %v", err)
-	}
+	err = r.fsm.Snapshot(snapshot)
 	r.mu.Lock()
 	r.fsmBusy = false
 	r.applyCond.Broadcast()
+	if err != nil {
+		r.logger.Fatalf("failed to take snapshot of state machine: error = %v", err)
+	}
 
-	// It's possible a snapshot was installed and the log was compacted while the lock was released.
+	// It's possible a snapshot was installed while the lock was released. This snapshot is then
+	// out of date and must not become the most recent snapshot of the snapshot storage, which is
+	// what the state machine is restored from.
 	if lastAppliedEntry.Index <= r.lastIncludedIndex {
+		if err := snapshot.Discard(); err != nil {
+			r.logger.Fatalf("failed to discard snapshot file: error = %v", err)
+		}
 		return
+	}
+	if err := snapshot.Close(); err != nil {
+		r.logger.Fatalf("failed to close snapshot file: error = %v", err)
 	}
 
 	// Compact the log.
